@@ -346,10 +346,12 @@ def model_mutants(ctx):
     for m in ("asc_col", "adc_after_sort", "ind_unsorted"):
         cfg = ctx.scratch / f"Geometry_mut_{m}.cfg"
         cfg.write_text(base.replace('Mutant = ""', f'Mutant = "{m}"').replace("MaxSel = 4", "MaxSel = 3")
-                       .replace("POSTCONDITION Export\n", ""))
+                       .replace("POSTCONDITION Export\n", "")
+                       # the property layer must catch them, not the model's own consistency invariants
+                       .replace("INVARIANT CoordsOnGrid\n", "").replace("INVARIANT Composition\n", ""))
         r = tlc.run("mc/MC_Geometry.tla", cfg, workers=2, timeout=900)
         if r.ok or not r.invariant_violated:
-            raise tlc.TLCError(f"vacuity control: model mutant {m} is not caught by any invariant")
+            raise tlc.TLCError(f"vacuity control: model mutant {m} is not caught by any property-layer invariant")
         caught[m] = r.invariant_violated
     ctx.cov["model_mutants_caught"] = caught
 
